@@ -292,6 +292,7 @@ impl GrammarBuilder {
                                     self.desugar_regex(
                                         &mut assign.gsymref,
                                         &mut desugar_productions,
+                                        &rule.name,
                                     )?;
                                     Ok(ResolvingAssignment {
                                         name: Some(assign.name),
@@ -303,7 +304,11 @@ impl GrammarBuilder {
                                     })
                                 }
                                 GrammarSymbolRef(mut reference) => {
-                                    self.desugar_regex(&mut reference, &mut desugar_productions)?;
+                                    self.desugar_regex(
+                                        &mut reference,
+                                        &mut desugar_productions,
+                                        &rule.name,
+                                    )?;
                                     Ok(ResolvingAssignment {
                                         name: None,
                                         symbol: ResolvingSymbolIndex {
@@ -403,6 +408,7 @@ impl GrammarBuilder {
         &mut self,
         gsymref: &mut GrammarSymbolRef,
         productions: &mut Vec<Production>,
+        rule_name: &Name,
     ) -> Result<()> {
         fn nt_name(name: &Name, rep_op: &RepetitionOperatorOp) -> Name {
             Name::new(
@@ -456,6 +462,25 @@ impl GrammarBuilder {
                     }
                 }
             };
+
+            // The rule being defined is registered only after its productions
+            // are processed. If this sugar expands to a rule of the same name
+            // we would create a second non-terminal with that name and leave
+            // a hole in the non-terminal indexes.
+            let mut created = vec![nt_name(&ref_type, &op.rep_op)];
+            if let RepetitionOperatorOp::ZeroOrMore = op.rep_op {
+                created.push(nt_name(&ref_type, &RepetitionOperatorOp::OneOrMore));
+            }
+            if created.iter().any(|n| n.as_ref() == rule_name.as_ref()) {
+                return err!(
+                    format!(
+                        "Rule '{}' has the same name as the rule created for the repetition of '{}' it uses.",
+                        rule_name, ref_type
+                    ),
+                    Some(self.file.clone()),
+                    ref_type.span
+                );
+            }
 
             match op.rep_op {
                 RepetitionOperatorOp::ZeroOrMore => {
